@@ -27,7 +27,7 @@ CFG = {
 INVS = ["C07_Minorant", "C07_GCCUnchanged", "C07_Ends", "C07_Profiles", "C07_RowsDescending", "EmitCase"]
 
 
-def tlc_cases(name, overrides=None, emit=True):
+def tlc_cases(name, overrides=None, emit=True, props=()):
     consts = dict(BASE); consts.update(CFG[name])
     if overrides:
         consts.update(overrides)
@@ -35,7 +35,7 @@ def tlc_cases(name, overrides=None, emit=True):
     tmp = Path(tempfile.mkdtemp(prefix="tlccfg_"))
     try:
         cfg = tmp / "mc.cfg"
-        write_cfg(cfg, spec="Spec", constants=consts, invariants=INVS)
+        write_cfg(cfg, spec="Spec", constants=consts, invariants=INVS, properties=props)
         return run_tlc("Pockets.tla", cfg, workers=16, xmx="8g")
     finally:
         shutil.rmtree(tmp, ignore_errors=True)
@@ -120,6 +120,11 @@ def mutant_selftest(run):
         res[sw] = r.violated
         if r.violated is None:
             run.machinery_errors.append(f"mutant model {sw} not rejected")
+    # liveness: under weak fairness the sweep terminates on every shape (totality of the loop with its fixed iteration count)
+    r = tlc_cases("tiny", emit=False, props=["Terminates"])
+    res["liveness_Terminates"] = r.violated or "holds"
+    if r.violated:
+        run.machinery_errors.append("Pockets.tla: sweep does not terminate: " + r.error_trace[:600])
     run.notes["mutant_models"] = res
 
 
